@@ -78,6 +78,12 @@ func c19Scan(c *Ctx, r *Report) {
 			}
 		})
 		if scan == nil {
+			// the forward form: a run counter carried along the walk
+			if found, problems := forwardRunCounter(c, fn); found {
+				r.check(forwardParityOK(fn), "C19.R1.parity", fname, c.pos(fn.Pos()), "a boundary only for an even run", "a label boundary is reported for a dot without the run of backslashes in front of it being known to be even: escaped dots are taken for label separators (or the other way round)")
+				r.check(len(problems) == 0, "C19.R1.scan-start", fname, c.pos(fn.Pos()), "forward scan: run counter +1 on a backslash, 0 on every other octet", "the counter of backslashes in front of the current octet is wrong on some way round the loop (%s): after an escaped dot the next dot or backslash is judged with the stale count, so the parity flips and label boundaries are lost or invented", strings.Join(problems, "; "))
+				continue
+			}
 			r.undecided("C19.R1.scan-start", fname, c.pos(fn.Pos()), "no backward scan over backslashes found")
 			continue
 		}
